@@ -17,30 +17,31 @@ import (
 
 // Harness describes one symbolic-execution entry point and its bounds.
 type Harness struct {
-	Name        string            `json:"name"`
-	Pkg         string            `json:"pkg"`  // import path suffix, e.g. "vm"
-	Func        string            `json:"func"` // Go function in that package
-	Args        []uint64          `json:"args,omitempty"`
-	Props       []string          `json:"props"`
-	Tier        string            `json:"tier,omitempty"` // "" both, "thorough" only there
-	Unroll      int               `json:"unroll,omitempty"`
-	BufMax      int               `json:"bufmax,omitempty"`
-	MaxSteps    int               `json:"maxsteps,omitempty"`
-	MaxPaths    int               `json:"maxpaths,omitempty"`
-	OnLimit     map[string]string `json:"onlimit,omitempty"`
-	MapOrder    string            `json:"maporder,omitempty"`
-	ExpectPanic bool              `json:"expectpanic,omitempty"`
-	Redirect    map[string]string `json:"redirect,omitempty"`
-	Reach       []string          `json:"reach,omitempty"` // tags that must be reached
-	Thorough    *Harness          `json:"thorough,omitempty"`
-	Params      map[string]uint64 `json:"params,omitempty"` // values for verifParam(name)
-	Note        string            `json:"note,omitempty"`
-	Rel         string            `json:"rel,omitempty"` // relational partner harness name
-	TimeoutMs   int               `json:"timeout_ms,omitempty"`
-	TimeCapS    int               `json:"timecap_s,omitempty"`
-	ConcreteMake bool             `json:"concrete_make,omitempty"`
-	SharedWrites bool             `json:"-"` // report writes of the code under test to package-level memory (C16/C17 checks)
-	PropsThorough []string        `json:"props_thorough,omitempty"`
+	Name          string            `json:"name"`
+	Pkg           string            `json:"pkg"`  // import path suffix, e.g. "vm"
+	Func          string            `json:"func"` // Go function in that package
+	Args          []uint64          `json:"args,omitempty"`
+	Props         []string          `json:"props"`
+	Tier          string            `json:"tier,omitempty"` // "" both, "thorough" only there
+	Unroll        int               `json:"unroll,omitempty"`
+	BufMax        int               `json:"bufmax,omitempty"`
+	MaxSteps      int               `json:"maxsteps,omitempty"`
+	MaxPaths      int               `json:"maxpaths,omitempty"`
+	OnLimit       map[string]string `json:"onlimit,omitempty"`
+	MapOrder      string            `json:"maporder,omitempty"`
+	ExpectPanic   bool              `json:"expectpanic,omitempty"`
+	Redirect      map[string]string `json:"redirect,omitempty"`
+	Reach         []string          `json:"reach,omitempty"` // tags that must be reached
+	Thorough      *Harness          `json:"thorough,omitempty"`
+	Params        map[string]uint64 `json:"params,omitempty"` // values for verifParam(name)
+	Note          string            `json:"note,omitempty"`
+	Rel           string            `json:"rel,omitempty"` // relational partner harness name
+	TimeoutMs     int               `json:"timeout_ms,omitempty"`
+	TimeCapS      int               `json:"timecap_s,omitempty"`
+	ConcreteMake  bool              `json:"concrete_make,omitempty"`
+	NoWitness     bool              `json:"nowitness,omitempty"`
+	SharedWrites  bool              `json:"-"` // report writes of the code under test to package-level memory (C16/C17 checks)
+	PropsThorough []string          `json:"props_thorough,omitempty"`
 }
 
 type Engine struct {
@@ -375,8 +376,10 @@ func (g *Engine) runHarness(h *Harness, solverKind string, timeoutMs int) (res *
 			sharedWrites: map[string]string{}, allReached: map[string]int{}, vioSeen: map[string]bool{},
 			atomicAccess: map[*Obj]bool{}, strictInit: map[*ssa.Package]bool{}, funcsSeen: map[string]bool{}, strCache: map[string]*Term{}, known: map[int]bool{}, varSeq: map[string]int{}}
 		e.workAlloc, e.workCopy = tb.BVu(0, 64), tb.BVu(0, 64)
-		if wid > 0 {
-			e.nWitness = 1 << 20 // witnesses are taken by the first worker only
+		if wid > 0 || h.NoWitness {
+			// witnesses are taken by the first worker only; harnesses whose paths depend on
+			// hash values (uninterpreted symbolically, real natively) opt out
+			e.nWitness = 1 << 20
 		}
 		// package initialisation of the package under test (concrete)
 		e.inInit = true
